@@ -1,11 +1,11 @@
 #!/bin/sh
 # confirm + detect every finished round-2 seed that has not been processed yet
 cd /verif
-for d in /tmp/seed2/out/C*/m? /tmp/seed3/out/C*/m? /tmp/seed4/out/C*/m? /tmp/seed5/out/C*/m? /tmp/seed6/out/C*/m?; do
+for d in /tmp/seed2/out/C*/m? /tmp/seed3/out/C*/m? /tmp/seed4/out/C*/m? /tmp/seed5/out/C*/m? /tmp/seed6/out/C*/m? /tmp/seed7/out/C*/m?; do
   [ -f "$d/meta.json" ] || continue
-  id=$(basename $(dirname $d)); m=$(basename $d); r=r2; case $d in /tmp/seed3/*) r=r3;; /tmp/seed4/*) r=r4;; /tmp/seed5/*) r=r5;; /tmp/seed6/*) r=r6;; esac; name="${id}_$r$m"
+  id=$(basename $(dirname $d)); m=$(basename $d); r=r2; case $d in /tmp/seed3/*) r=r3;; /tmp/seed4/*) r=r4;; /tmp/seed5/*) r=r5;; /tmp/seed6/*) r=r6;; /tmp/seed7/*) r=r7;; esac; name="${id}_$r$m"
   [ -d "seeded/$name" ] && [ -f "seeded/$name/detect.json" ] && continue
   if [ ! -d "seeded/$name" ]; then python3 tools/seed.py confirm $id $m $d $r$m 2>&1 | cut -c1-80; fi
   [ -d "seeded/$name" ] && python3 tools/seed.py detect $name >/dev/null 2>&1
 done
-python3 tools/seed_status.py | grep "_r[23456]"
+python3 tools/seed_status.py | grep "_r[234567]"
